@@ -18,7 +18,7 @@
      everywhere  hand Panic -> generated Panic (codes aside: nil receiver is 4 by hand, 5 generated);
                  the receiver's fields are returned unchanged by BLength / FastWrite. *)
 From GV Require Import Lib.Bytes Lib.Res Lib.GoSem Gen.Consts Gen.Funcs Model.Binary Model.Skip Model.Nocopy
-     Model.FastCodec Proofs.BinaryP Proofs.SkipP Proofs.GenLib Proofs.GenEquiv Proofs.GenEquivFast.
+     Model.FastCodec Proofs.BinaryP Proofs.SkipP Proofs.GenLib Proofs.GenLib3 Proofs.GenEquiv Proofs.GenEquivFast.
 From Coq Require Import ZifyN ZifyNat ZifyBool.
 Open Scope N_scope.
 
@@ -30,9 +30,6 @@ Definition xt (e : option appex) : Z := match e with Some r => x_type r | None =
 (* a writer that succeeds reports at most the room it was given and keeps the buffer's length *)
 Definition wr_ok (R : bytes -> res (bytes * N)) : Prop :=
   forall sub sub' n, R sub = Ok (sub', n) -> n <= len sub /\ len sub' = len sub.
-
-Lemma ok_pair_inv {A B} (a a' : A) (b b' : B) : @Ok (A * B) (a, b) = Ok (a', b') -> a = a' /\ b = b'.
-Proof. intros H. inversion H. auto. Qed.
 
 Lemma put_ok_len buf off bs b' : put buf off bs = Ok b' -> off + len bs <= len buf /\ len b' = len buf.
 Proof.
@@ -137,10 +134,6 @@ Definition aw_sim (e : option appex) (g : res (Z * bytes * bytes * Z)) (h : res 
   end.
 
 (* NOTE: no cbn / simpl on goals that contain a generated definition: they would expand its lets *)
-Lemma bind_Ok {A B} (a : A) (f : A -> res B) : bind (Ok a) f = f a. Proof. reflexivity. Qed.
-Lemma bind_Err {A B} c (f : A -> res B) : bind (Err c) f = Err c. Proof. reflexivity. Qed.
-Lemma bind_Panic {A B} w (f : A -> res B) : bind (Panic w) f = Panic w. Proof. reflexivity. Qed.
-Lemma bind_OOB {A B} (f : A -> res B) : bind OOB f = OOB. Proof. reflexivity. Qed.
 
 (* one `off += Binary.WriteX(b[off:], ...)` of the generated FastWrite against one [at_off] of the hand model *)
 Ltac hz := repeat lazymatch goal with |- aw_sim ?e (let x := ?v in @?f x) ?h => change (aw_sim e (f v) h); cbv beta end.
